@@ -26,6 +26,10 @@ def run(ck):
         ck.guard("C07-R7", r7_group, ck, F)
         ck.guard("C07-R8", r8_config, ck, F)
         ck.guard("C07-R9", r9_layout, ck, F)
+        # stored entries are never overwritten: the bounds area and the entries area of the buffer stay
+        # disjoint (linear-invariant analysis shared with C17-R10)
+        from . import bufarith
+        ck.guard("C07-R11", bufarith.run_rule, ck, F, "C07-R11")
         # the merger rules the age-order argument rests on (shared with C06)
         ck.guard("C07-R10", r1_heap_order, ck, F, "C07-R10")
         ck.guard("C07-R10", r2_seed, ck, F, "C07-R10")
@@ -294,12 +298,14 @@ def r7_group(ck, F, R="C07-R7"):
 SETTERS = [("compression_type", "chunk_compression_type"), ("compression_level", "chunk_compression_level"), ("index_key_interval", "index_key_interval"), ("block_size", "block_size"), ("index_levels", "index_levels")]
 
 
-def r8_config(ck, F):
-    R = "C07-R8"
-    r6_plumb(ck, F, R)
+def r8_config(ck, F, R="C07-R8", only=None):
+    if only is None:
+        r6_plumb(ck, F, R)
     for p in (A("sorter_write_chunk"), A("sorter_merge_chunks")):
         b = F.body(p)
         for setter, fld in SETTERS:
+            if only is not None and setter not in only:
+                continue
             cs = calls(b, "writer::WriterBuilder::" + setter)
             ok = len(cs) == 1
             if ok:
@@ -314,9 +320,26 @@ def r8_config(ck, F):
                         if e.k == "discr" and is_self_field(e.a[0], fld) and "Some" in labels and b.dominates(labels["Some"], cs[0][0].bb):
                             g = True
                 ok = ok and g
-            ck.ob(R, f"chunk-writer-setting/{p.split('::')[-1]}/{setter}", ok, f"if let Some(x) = self.{fld} {{ writer_builder.{setter}(x) }}", b)
+                # ... and by nothing else: every path to the writer's construction that does not apply the
+                # setting goes through the None arm of that same Option
+                bl_ = calls(b, A("writer_build"))
+                if ok and bl_:
+                    banned = set()
+                    for bb in sorted(b.normal_blocks()):
+                        if b.term(bb)["t"] == "switch":
+                            e, enum, labels, oth = switch_on(b, bb)
+                            if e.k == "discr" and (is_self_field(e.a[0], fld) or (setter == "compression_level" and is_self_field(e.a[0], "chunk_compression_type"))):
+                                # (a level without a codec means nothing: it may be applied only under `Some(codec)`)
+                                for lab, tb in labels.items():
+                                    if lab != "Some":
+                                        banned.add((bb, tb))
+                    reach = reachable_without(b, banned_edges=banned, banned_blocks={cs[0][0].bb})
+                    ok = bl_[0][0].bb not in reach
+            ck.ob(R, f"chunk-writer-setting/{p.split('::')[-1]}/{setter}", ok, f"if let Some(x) = self.{fld} {{ writer_builder.{setter}(x) }} — applied whenever the setting is Some, whatever the other settings", b)
         bl = calls(b, A("writer_build"))
         ck.ob(R, f"chunk-writer-built-once/{p.split('::')[-1]}", len(bl) == 1 and any(x.k == "call" and x.x["path"].endswith("ChunkCreator::create") for x in b.arg_exprs(bl[0][0])[1].walk()), "the writer is built over the freshly created chunk", b)
+    if only is not None:
+        return
     # setters of the builder store their argument
     for fld, wrap in (("chunk_compression_type", True), ("chunk_compression_level", True), ("index_key_interval", True), ("block_size", True), ("index_levels", True), ("allow_realloc", False), ("sort_algorithm", False)):
         st = field_stores(F, A("sorter_builder"), fld)
